@@ -45,3 +45,9 @@ package binutils
 //@   atreturn translated: $res1 == nil ==> $res0 == addr - f.base && f.baseErr == nil
 //@   atreturn failed: $res1 != nil ==> $res0 == 0 && $res1 == f.baseErr
 //@   mustcall Once.Do base_first: true when true
+
+// ---- C13 (strengthened after seeded change llvm-symbolizer-rejects-address-below-base): whatever the address and
+// the (possibly wrapped-around) base, addrInfo sends a query to the symbolizer before it returns; the address
+// arithmetic is modular and no comparison with the base decides whether to ask.
+//@ func llvmSymbolizer.addrInfo nosafety
+//@   mustcall invoke.write query_sent: true when true
